@@ -140,11 +140,14 @@ class ClosedFormSequence(Generic[T]):
         self, inputs: dict[str, TExpr[T]], backend: SymbolicBackend[T], functions_map=None
     ) -> ClosedFormSequence[T]:
         functions_map = {} if functions_map is None else functions_map
+        # `num_terms_symbol` is a placeholder bound by the formulas (`get_sum` replaces it by the count): a symbol of the
+        # surrounding scope that happens to be spelled the same way must not be substituted into them.
+        placeholder = backend.serialize(self.num_terms_symbol)
+        inputs = {symbol: value for symbol, value in inputs.items() if symbol != placeholder}
         return replace(
             self,
             sum=None if self.sum is None else backend.substitute(self.sum, inputs, functions_map),
             prod=None if self.prod is None else backend.substitute(self.prod, inputs, functions_map),
-            num_terms_symbol=backend.substitute(self.num_terms_symbol, inputs, functions_map),
         )
 
 
